@@ -81,6 +81,7 @@ func runC05(ctx *core.Ctx) {
 		execC05(ctx, c)
 	})
 	c05EmptyStream(ctx)
+	c05TypesStream(ctx)
 }
 
 // ---- running one path ------------------------------------------------------------------------
